@@ -211,6 +211,52 @@ class KernelHooks(Hooks):
             if isinstance(a, (int, float)) and isinstance(b, (int, float)):
                 r = max(a, b) if base == 'std::max' else min(a, b)
                 return r if isinstance(r, int) else Poly.const(r)
+        if base in ('memcpy', 'std::memcpy', 'memmove', 'std::memmove', '__builtin_memcpy', '__builtin_memmove') and len(args) == 3:
+            # copying doubles as bytes: an exact copy of each element (the byte count must be a whole number of doubles)
+            dst, src, nbytes = it.eval(args[0]), it.eval(args[1]), it.eval(args[2])
+            if isinstance(nbytes, Poly) and nbytes.is_const():
+                nbytes = int(nbytes.const_value())
+            if not isinstance(nbytes, int) or not isinstance(dst, Ptr) or not isinstance(src, Ptr):
+                raise Unsupported('memcpy with symbolic size or untracked pointers at %s' % it.loc(node))
+            if nbytes % 8:
+                raise Unsupported('memcpy of %d bytes (not a whole number of doubles) at %s' % (nbytes, it.loc(node)))
+            vals = [it.read(it.deref(it.ptr_add(src, k), node), node) for k in range(nbytes // 8)]
+            for k, v in enumerate(vals):
+                it.write(it.deref(it.ptr_add(dst, k), node), v, node)
+            return dst
+        if base in ('std::sort', 'std::stable_sort') and len(args) in (2, 3):
+            # comparison sort over an array whose order relation the engine can decide (concretely, or through its
+            # decide_cmp hook): a stable insertion sort driven by the program's own comparator
+            a, b = it.eval(args[0]), it.eval(args[1])
+            n = self._count(it, a, b, node)
+            cmpf = it.eval(args[2]) if len(args) == 3 else None
+            cmpf = cmpf.value if isinstance(cmpf, Cell) else cmpf
+            vals = [it.read(it.deref(it.ptr_add(a, k), node), node) for k in range(n)]
+
+            def less(x, y):
+                if cmpf is None:
+                    xv = float(x.const_value()) if isinstance(x, Poly) and x.is_const() else x
+                    yv = float(y.const_value()) if isinstance(y, Poly) and y.is_const() else y
+                    if not (isinstance(xv, (int, float)) and isinstance(yv, (int, float))):
+                        raise Unsupported('sort over symbolic values without a comparator at %s' % it.loc(node))
+                    return xv < yv
+                elif getattr(cmpf, 'lam', None) is not None:
+                    r = it.call_lambda_values(cmpf, [x, y])
+                else:
+                    raise Unsupported('sort with a comparator that is not a closure at %s' % it.loc(node))
+                t = it.truth(r.value if isinstance(r, Cell) else r, node)
+                if isinstance(t, Cond):
+                    raise Unsupported('sort over values whose order is not decidable at %s' % it.loc(node))
+                return bool(t)
+            out = []
+            for v in vals:
+                pos = len(out)
+                while pos > 0 and less(v, out[pos - 1]):
+                    pos -= 1
+                out.insert(pos, v)
+            for k, v in enumerate(out):
+                it.write(it.deref(it.ptr_add(a, k), node), v, node)
+            return None
         if base == 'std::fill_n':
             a, cnt, v = it.eval(args[0]), it.eval(args[1]), it.eval(args[2])
             if isinstance(v, Cell):
